@@ -105,3 +105,18 @@ func (r *ResponseFilterWriter) Write(b []byte) (int, error) {
 	}
 	return r.ResponseWriter.Write(b)
 }
+
+// Flush implements http.Flusher. A flush commits the header, so the
+// decision whether to compress has to be taken before it, exactly as in
+// WriteHeader; otherwise a body compressed later would follow a header
+// that was sent without Content-Encoding.
+func (r *ResponseFilterWriter) Flush() {
+	if !r.statusCodeWritten {
+		r.WriteHeader(http.StatusOK)
+	}
+	if r.shouldCompress {
+		r.gzipResponseWriter.Flush()
+		return
+	}
+	r.gzipResponseWriter.ResponseWriterWrapper.Flush()
+}
